@@ -385,8 +385,10 @@ func PrepareFact(ctx *Context, givenId string, x Map) (id string, m map[string]i
 }
 
 // withTarget returns the given 'deleteWith' value with the target in
-// it.  The given value is not modified.  A value that is no list is
-// left alone ('deleteWith' wants a list).
+// it.  The given value is not modified.  A value that is no list (a
+// single id from a writer who thinks that one id needs no list, say)
+// becomes the first element of one: a property goes with its target
+// whatever else it says about going.
 func withTarget(given interface{}, target string) interface{} {
 	switch vv := given.(type) {
 	case nil:
@@ -410,7 +412,10 @@ func withTarget(given interface{}, target string) interface{} {
 		}
 		return append(acc, target)
 	}
-	return given
+	if s, ok := given.(string); ok && s == target {
+		return []interface{}{target}
+	}
+	return []interface{}{given, target}
 }
 
 // checkReservedProp refuses a value for one of the location-level
